@@ -16,7 +16,9 @@ FLOORS = {"nontrivial": 2000, "observed": {"ops.set": 800, "ops.del": 400, "ops.
                                            "targets": 3}}
 RULE = ("documents (plain, attrpath-derived, nested, scoped with 0-3 let layers, wrapped in lambda "
         "/ with / assert / call) x histories of 5-40 item get / set / delete on the document "
-        "mapping, on nested sets reached through it and on the target set's scope mapping; keys: "
+        "mapping, on nested sets reached through it and on the target set's scope mapping (plus a "
+        "leg for documents whose target is reached through a let-bound name, with re-binding of "
+        "that name through the scope mapping); keys: "
         "existing, fresh, attrpath roots, dotted (read only), missing; values: ints, strings, "
         "booleans, None, dicts; after every operation: the dictionary law of that operation "
         "(lookup after set, KeyError after delete, KeyError without side effect for a missing key, "
@@ -89,8 +91,135 @@ def make_doc(rng):
 
 def plan(tier, seed):
     n_shards = 16 if tier == "quick" else 64
-    return [{"seed": seed * 6311 + i * 141650939 + 47, "docs": 140 if tier == "quick" else 1500}
-            for i in range(n_shards)]
+    specs = [{"seed": seed * 6311 + i * 141650939 + 47, "docs": 140 if tier == "quick" else 1500}
+             for i in range(n_shards)]
+    for i in range(2 if tier == "quick" else 8):
+        specs.append({"leg": "reference-target", "seed": seed * 311 + i * 15487469 + 5,
+                      "docs": 400 if tier == "quick" else 4000})
+    return specs
+
+
+def ref_target_view(text, var):
+    """Plain tree of the set bound to `var` in the outermost let of `let var = {..}; .. in var`."""
+    data, root, err = cst.normalized(text)
+    if err:
+        return None
+    exprs = [c for c in root.children if c.type != "comment"]
+    if len(exprs) != 1 or exprs[0].type != "let_expression":
+        return None
+    for b in A.decode_bindings(exprs[0]):
+        if b.kind == "bind" and tuple(b.path) == (var,) and b.sub is not None:
+            dups = []
+            tree = A.merge(b.sub.bindings, dups)
+            return A.to_plain(tree), dups
+    return None
+
+
+def run_reference_leg(spec, res):
+    """Documents whose target set is reached through a name: `let x = { .. }; y = ..; in x`.
+    Histories mix the document mapping (get / set / del) with re-binding `x` through the scope
+    mapping; after every step the document mapping must agree with the text."""
+    from nix_manipulator import parse
+    rng = random.Random(spec["seed"])
+    obs = res["observed"]
+    obs.update({"ops": {}, "targets": {}, "key_classes": {}, "laws_checked": 0, "views_compared": 0})
+    nontriv = set()
+    for di in range(spec["docs"]):
+        var = rng.choice(["x", "cfg", "attrs"])
+        n = rng.choice([1, 2, 3])
+        body = " ".join(f"k{i} = {rng.randrange(100)};" for i in range(n))
+        extra = rng.choice(["", "  other = 1;\n"])
+        text = f"let\n  {var} = {{ {body} }};\n{extra}in\n{var}\n"
+        try:
+            src = parse(text)
+        except Exception:  # noqa: BLE001
+            continue
+        hist = []
+        for si in range(rng.randrange(3, 12)):
+            try:
+                before = src.rebuild()
+            except Exception as e:  # noqa: BLE001
+                B.record(res, {"target": "reference", "effect": "rebuild-raised", "exc": type(e).__name__},
+                         {"initial": text, "history": hist}, str(e)[:200])
+                break
+            k = rng.random()
+            key = rng.choice([f"k{rng.randrange(4)}", "fresh" + str(rng.randrange(5))])
+            val = rng.randrange(1000, 2000)
+            exc = None
+            try:
+                if k < 0.3:
+                    op = ["doc-set", key, val]
+                    src[key] = val
+                elif k < 0.45:
+                    op = ["doc-del", key, None]
+                    del src[key]
+                elif k < 0.6:
+                    op = ["doc-get", key, None]
+                    src[key]
+                else:
+                    newset = {f"r{rng.randrange(3)}": rng.randrange(2000, 3000), f"k{rng.randrange(4)}": rng.randrange(3000, 4000)}
+                    op = ["scope-rebind", var, newset]
+                    src.expr.scope[var] = newset
+            except KeyError as e:
+                exc = e
+            except Exception as e:  # noqa: BLE001
+                exc = e
+            hist.append(op)
+            res["evaluations"] += 1
+            B.bump(obs["ops"], op[0].split("-")[1] if op[0].startswith("doc") else "set")
+            B.bump(obs["targets"], "reference")
+            B.bump(obs["key_classes"], op[0])
+            obs["laws_checked"] += 1
+            try:
+                after = src.rebuild()
+            except Exception as e:  # noqa: BLE001
+                B.record(res, {"target": "reference", "op": op[0], "effect": "rebuild-raised-after-op",
+                               "exc": type(e).__name__}, {"initial": text, "history": hist}, str(e)[:200])
+                break
+            view = ref_target_view(after, var)
+            if view is None:
+                break   # shape left the leg's domain (e.g. the set became something else)
+            plain, dups = view
+            obs["views_compared"] += 1
+            nontriv.add(B.h64(before + repr(op)))
+            base = {"target": "reference", "op": op[0], "wrappers": "let", "layers": "1"}
+            bad = None
+            if dups:
+                bad = ("duplicate-definition-in-text", repr(after))
+            elif exc is not None and not isinstance(exc, KeyError):
+                bad = ("operation-raised", f"{type(exc).__name__}: {exc}")
+            else:
+                # the document mapping and the text must name the same keys with the same values
+                for kk in sorted(set(list(plain.keys()) + [key])):
+                    try:
+                        got = src[kk]
+                        got_text = got.rebuild() if hasattr(got, "rebuild") else repr(got)
+                        present = True
+                    except KeyError:
+                        present = False
+                    except Exception as e:  # noqa: BLE001
+                        bad = ("lookup-raised", f"{kk}: {type(e).__name__}: {e}")
+                        break
+                    if present != (kk in plain):
+                        bad = ("text-disagrees-with-mapping",
+                               f"key {kk}: mapping {'has' if present else 'lacks'} it, text {'has' if kk in plain else 'lacks'} it; AFTER={after!r}")
+                        break
+                    if present and isinstance(plain[kk], tuple):
+                        want = b" ".join(t[1] for t in plain[kk][1]).decode()
+                        if got_text.strip() != want:
+                            bad = ("text-disagrees-with-mapping", f"key {kk}: mapping {got_text!r} text {want!r}; AFTER={after!r}")
+                            break
+                if bad is None and op[0] == "doc-set" and exc is None and key not in plain:
+                    bad = ("set-not-in-text", repr(after))
+                if bad is None and op[0] == "doc-del" and exc is None and key in plain:
+                    bad = ("del-still-in-text", repr(after))
+            if bad is not None:
+                k2 = dict(base)
+                k2["effect"] = bad[0]
+                B.record(res, k2, {"initial": text, "history": hist}, f"BEFORE={before!r} {bad[1]}"[:1400])
+                break
+    res["nontrivial"] = sorted(nontriv)
+    return res
 
 
 def run_shard(spec):
@@ -98,6 +227,8 @@ def run_shard(spec):
     from nix_manipulator.expressions import AttributeSet
     rng = random.Random(spec["seed"])
     res = B.new_result()
+    if spec.get("leg") == "reference-target":
+        return run_reference_leg(spec, res)
     obs = res["observed"]
     obs.update({"ops": {}, "targets": {}, "key_classes": {}, "laws_checked": 0, "views_compared": 0})
     nontriv = set()
